@@ -79,26 +79,26 @@ def walkParents (r : Rib) (name : Name) : Nat → List Route
     let rs := r.routesAt (name.take k)
     rs.filter Route.childInherit ++ (if rs.any Route.capture then [] else walkParents r name k)
 
-/-- the body of `updateNexthopsEnc` for one node (without the recursion into the children):
-    nothing for a filler node; otherwise clear the FIB entry and, if the node has routes,
-    insert the minimum cost per face over own + inherited routes -/
-def recompute (r : Rib) (fib : C05.Spec) (p : Name) : C05.Spec :=
+/-- the FIB calls made by the body of `updateNexthopsEnc` for one node (without the recursion
+    into the children): none for a filler node; otherwise `ClearNextHopsEnc(r.Name)` and, if the
+    node has routes, one `InsertNextHopEnc(r.Name, face, cost)` per face of the minimum-cost map
+    over own + inherited routes -/
+def recomputeOps (r : Rib) (p : Name) : List C05.Op :=
   match afind r.nodes p with
-  | none => fib
+  | none => []
   | some nd =>
     match nd.name with
-    | none => fib
+    | none => []
     | some nm =>
-      let fib1 := fib.apply (.clr nm)
-      if nd.routes.isEmpty then fib1
+      if nd.routes.isEmpty then [.clr nm]
       else
         let rs := nd.routes ++ (if nd.routes.any Route.capture then [] else walkParents r p p.length)
-        (minCost rs).foldl (fun f h => f.apply (.ins nm h.1 h.2)) fib1
+        .clr nm :: (minCost rs).map fun h => .ins nm h.1 h.2
 
 /-- `updateNexthopsEnc` including `for child := range r.children { child.updateNexthopsEnc() }`:
     the node at `p` and every node below it is recomputed once -/
-def updateSubtree (r : Rib) (fib : C05.Spec) (p : Name) : C05.Spec :=
-  (r.nodes.filter fun q => decide (q.1.take p.length = p)).foldl (fun f q => recompute r f q.1) fib
+def updateSubtreeOps (r : Rib) (p : Name) : List C05.Op :=
+  (r.nodes.filter fun q => decide (q.1.take p.length = p)).flatMap fun q => recomputeOps r q.1
 
 /-- `if node.Name == nil { node.Name = name }` -/
 def RNode.named (nd : RNode) (name : Name) : RNode :=
@@ -109,33 +109,38 @@ def removeRoute : List Route → Nat → Nat → List Route
   | [], _, _ => []
   | x :: t, f, o => if x.sameKey f o then t else x :: removeRoute t f o
 
-/-- `AddEncRoute` -/
-def St.reg (s : St) (name : Name) (rt : Route) : St :=
-  let r1 := s.rib.fill name
+/-- `AddEncRoute`: new RIB and the FIB calls it makes -/
+def Rib.reg (r : Rib) (name : Name) (rt : Route) : Rib × List C05.Op :=
+  let r1 := r.fill name
   let r2 : Rib := ⟨amodify r1.nodes name fun nd => { nd.named name with routes := upsertRoute nd.routes rt }⟩
-  ⟨r2, updateSubtree r2 s.fib name⟩
+  (r2, updateSubtreeOps r2 name)
 
 /-- `RemoveRouteEnc` -/
-def St.unreg (s : St) (name : Name) (f o : Nat) : St :=
-  match s.rib.findExact name with
-  | none => s
+def Rib.unreg (r : Rib) (name : Name) (f o : Nat) : Rib × List C05.Op :=
+  match r.findExact name with
+  | none => (r, [])
   | some nd =>
-    let r1 : Rib := ⟨aset s.rib.nodes name { nd with routes := removeRoute nd.routes f o }⟩
-    ⟨⟨pruneUp r1.nodes name name.length⟩, updateSubtree r1 s.fib name⟩
+    let r1 : Rib := ⟨aset r.nodes name { nd with routes := removeRoute nd.routes f o }⟩
+    (⟨pruneUp r1.nodes name name.length⟩, updateSubtreeOps r1 name)
 
 /-- the per-entry part of `CleanUpFace` (after the recursion into the children): drop every
     route of the face; if something was dropped recompute the subtree and prune -/
-def St.cleanNode (s : St) (face : Nat) (p : Name) : St :=
-  match afind s.rib.nodes p with
-  | none => s
+def Rib.cleanNode (r : Rib) (face : Nat) (p : Name) : Rib × List C05.Op :=
+  match afind r.nodes p with
+  | none => (r, [])
   | some nd =>
-    if nd.routes.any (fun r => r.face == face) then
-      let r1 : Rib := ⟨aset s.rib.nodes p { nd with routes := nd.routes.filter fun r => !(r.face == face) }⟩
-      ⟨⟨pruneUp r1.nodes p p.length⟩, updateSubtree r1 s.fib p⟩
-    else s
+    if nd.routes.any (fun x => x.face == face) then
+      let r1 : Rib := ⟨aset r.nodes p { nd with routes := nd.routes.filter fun x => !(x.face == face) }⟩
+      (⟨pruneUp r1.nodes p p.length⟩, updateSubtreeOps r1 p)
+    else (r, [])
 
 /-- `CleanUpFace` visiting the entries in the order `ord` -/
-def St.cleanupOrd (s : St) (face : Nat) (ord : List Name) : St := ord.foldl (fun s p => s.cleanNode face p) s
+def Rib.cleanupOrd (r : Rib) (face : Nat) : List Name → Rib × List C05.Op
+  | [] => (r, [])
+  | p :: ord =>
+    let (r1, o1) := r.cleanNode face p
+    let (r2, o2) := r1.cleanupOrd face ord
+    (r2, o1 ++ o2)
 
 def insertByDepth (x : Name) : List Name → List Name
   | [] => [x]
@@ -144,10 +149,16 @@ def insertByDepth (x : Name) : List Name → List Name
 /-- children before parents (one of the orders the recursion over the `children` maps can take) -/
 def Rib.postOrder (r : Rib) : List Name := (r.nodes.map (·.1)).foldl (fun acc x => insertByDepth x acc) []
 
-def St.apply (s : St) : Op → St
-  | .reg n r => s.reg n r
-  | .unreg n f o => s.unreg n f o
-  | .cleanup f => s.cleanupOrd f s.rib.postOrder
+/-- one RIB operation: new RIB and the FIB calls made -/
+def Rib.apply (r : Rib) : Op → Rib × List C05.Op
+  | .reg n rt => r.reg n rt
+  | .unreg n f o => r.unreg n f o
+  | .cleanup f => r.cleanupOrd f r.postOrder
+
+/-- the RIB together with the (abstract) FIB it writes to -/
+def St.apply (s : St) (op : Op) : St :=
+  let (r', calls) := s.rib.apply op
+  ⟨r', calls.foldl C05.Spec.apply s.fib⟩
 
 /-- `GetAllEntries`: every node with routes, as (entry.Name, routes) -/
 def Rib.list (r : Rib) : List (Name × List Route) :=
